@@ -19,6 +19,9 @@ type LayerMap = BTreeMap<(i64, i64), Vec<ShapeKey>>;
 struct CellSummary {
     has_layout: bool,
     has_abstract: bool,
+    /// the views' own name fields (legal to differ from the cell name)
+    layout_name: String,
+    abstract_name: String,
     insts: Vec<(String, String, i64, i64, bool, i64)>,
     annotations: Vec<(String, i64, i64)>,
     shapes: LayerMap,
@@ -52,6 +55,7 @@ fn summarize_raw(lib: &Library) -> Result<LibSummary, String> {
         let mut s = CellSummary::default();
         if let Some(lay) = &c.layout {
             s.has_layout = true;
+            s.layout_name = lay.name.clone();
             for i in &lay.insts {
                 let t = i.cell.read().map_err(|_| "lock")?.name.clone();
                 s.insts.push((i.inst_name.clone(), t, i.loc.x as i64, i.loc.y as i64, i.reflect_vert, angle_deg(i.angle).ok_or("non-integer angle")?));
@@ -69,6 +73,7 @@ fn summarize_raw(lib: &Library) -> Result<LibSummary, String> {
         }
         if let Some(a) = &c.abs {
             s.has_abstract = true;
+            s.abstract_name = a.name.clone();
             s.outline = a.outline.points.iter().map(|p| (p.x as i64, p.y as i64)).collect();
             for p in &a.ports {
                 let mut m = BTreeMap::new();
@@ -114,6 +119,7 @@ fn summarize_proto(p: &proto::Library) -> LibSummary {
         let mut s = CellSummary::default();
         if let Some(lay) = &c.layout {
             s.has_layout = true;
+            s.layout_name = lay.name.clone();
             for i in &lay.instances {
                 let t = match i.cell.as_ref().and_then(|r| r.to.as_ref()) {
                     Some(proto::reference::To::Local(n)) => n.clone(),
@@ -133,6 +139,7 @@ fn summarize_proto(p: &proto::Library) -> LibSummary {
         }
         if let Some(a) = &c.r#abstract {
             s.has_abstract = true;
+            s.abstract_name = a.name.clone();
             s.outline = a.outline.as_ref().map(|o| o.vertices.iter().map(|q| (q.x, q.y)).collect()).unwrap_or_default();
             for port in &a.ports {
                 let mut m = BTreeMap::new();
@@ -172,6 +179,8 @@ fn first_diff(a: &LibSummary, b: &LibSummary) -> Option<(String, String)> {
         }
         f!(has_layout, "layout-presence");
         f!(has_abstract, "abstract-presence");
+        f!(layout_name, "layout-name");
+        f!(abstract_name, "abstract-name");
         if x.insts != y.insts {
             let rot = x.insts.iter().zip(y.insts.iter()).any(|(p, q)| (&p.0, &p.1, p.2, p.3, p.4) == (&q.0, &q.1, q.2, q.3, q.4) && p.5 != q.5);
             return Some((if rot { "instance-rotation".into() } else { "instances".into() }, format!("cell {}: {:?} vs {:?}", n, x.insts, y.insts).chars().take(700).collect()));
